@@ -94,7 +94,7 @@ func (x *c01ctx) try(family, desc string, d *gabi.ProofD) bool {
 		c01Post(r, x.cred, d2, family, desc+" via ProofList.Verify", x.ctx, x.non)
 	}
 	// a refused object tried again (Verify, then ProofList.Verify on the same object): still refused
-	if !ok && pv == nil {
+	if !ok && pv == nil && !(d1.NonRevocationProof != nil && countSmall(d1) >= 2) {
 		ok3, pv3, _ := verifyList(gabi.ProofList{d1}, []*gabikeys.PublicKey{pk}, x.ctx, x.non, false, nil)
 		r.Eval(family+"/reverify", outcome(ok3, pv3))
 		if ok3 {
